@@ -32,6 +32,15 @@ val128 = RecFunction('val128', S, I)
 RecAddDefinition(val128, [_s], If(Length(_s) <= 0, IntVal(0),
                                   128 * val128(z3.Extract(_s, IntVal(0), Length(_s) - 1)) + _s[Length(_s) - 1] % 128))
 
+# big-endian value of the n elements of s starting at lo (no sub-sequence terms: friendlier to the solver)
+_lo = Int('_lo')
+_n = Int('_n')
+be_val = RecFunction('be_val', S, I, I, I)
+RecAddDefinition(be_val, [_s, _lo, _n], If(_n <= 0, IntVal(0), 256 * be_val(_s, _lo, _n - 1) + _s[_lo + _n - 1]))
+# base-128 value (continuation bits masked off)
+b128_val = RecFunction('b128_val', S, I, I, I)
+RecAddDefinition(b128_val, [_s, _lo, _n], If(_n <= 0, IntVal(0), 128 * b128_val(_s, _lo, _n - 1) + _s[_lo + _n - 1] % 128))
+
 # bit_length: uninterpreted + the defining inequalities (CPython docs: for nonzero x,
 # 2**(k-1) <= abs(x) < 2**k), instantiated per use (A-BUILTIN)
 bit_length_f = Function('bit_length', I, I)
@@ -86,6 +95,16 @@ class XNS:
     @staticmethod
     def val256(ex, s):
         return val256(z_of(s))
+
+    @staticmethod
+    def be_val(ex, s, lo, n):
+        """value of s[lo:lo+n] read as a big-endian base-256 number"""
+        return be_val(z_of(s), toint(lo), toint(n))
+
+    @staticmethod
+    def b128_val(ex, s, lo, n):
+        """value of s[lo:lo+n] read as base-128 digits (bit 8 of each octet ignored), X.690 8.1.2.4 / 8.19"""
+        return b128_val(z_of(s), toint(lo), toint(n))
 
     @staticmethod
     def val128(ex, s):
